@@ -32,6 +32,7 @@ type seedCorpus struct {
 	nCorpus int
 	nKeys   int
 	nBuilt  int
+	nKeyed  int
 }
 
 var (
@@ -213,6 +214,20 @@ func loadSeeds() *seedCorpus {
 			binaries = append(binaries, b)
 			add("armor", refage.Armor(b, "\n"))
 		}
+		// the key-aware family: the whole grid for its own target, and the
+		// files with a sealed chunk also as plain and armored age files
+		for i := 0; i < keyedGridSize(); i++ {
+			in := keyedGrid(i)
+			add("keyed", in)
+			c.nKeyed++
+			if len(in) > 2 && (i/nKinds)%nShapes == shChunk {
+				add("agefile", in[2:])
+				binaries = append(binaries, in[2:])
+				if i%3 == 0 {
+					add("armor", refage.Armor(in[2:], "\n"))
+				}
+			}
+		}
 		add("armor", refage.Armor(nil, "\n"))
 		add("armor", refage.Armor(mon.DetBytes("c14-armor", 48), "\r\n"))
 		add("armor", refage.Armor(mon.DetBytes("c14-armor", 97), "\n"))
@@ -367,5 +382,5 @@ func (c *seedCorpus) describe() string {
 		parts = append(parts, fmt.Sprintf("%s=%d", g, len(l)))
 	}
 	sort.Strings(parts)
-	return fmt.Sprintf("vectors=%d corpus=%d built=%d keys=%d union=%d [%s]", c.nVector, c.nCorpus, c.nBuilt, c.nKeys, len(c.all), strings.Join(parts, " "))
+	return fmt.Sprintf("vectors=%d corpus=%d built=%d keyed=%d keys=%d union=%d [%s]", c.nVector, c.nCorpus, c.nBuilt, c.nKeyed, c.nKeys, len(c.all), strings.Join(parts, " "))
 }
